@@ -33,8 +33,11 @@ def gen(tier, rnd):
                 elems.append(None)                                   # nil entry
             elif x < 0.30:
                 elems.append({"leaf": leaf(ret=False)})              # nil result
-            elif x < 0.55:
+            elif x < 0.45:
                 elems.append({"batch": [leaf() for _ in range(rnd.choice([2, 3, 4]))]})
+            elif x < 0.55:
+                # the element returns a BatchMsg literal with nil entries (not built by tea.Batch, which would drop them)
+                elems.append({"batch": [leaf() for _ in range(rnd.choice([1, 2, 3]))], "raw": leaf(ret=False)["id"]})
             else:
                 elems.append({"leaf": leaf()})
         paused = rnd.random() < 0.35
@@ -97,6 +100,8 @@ def scenarios(cases):
                 seq_elems.append(None)
             elif "leaf" in e:
                 seq_elems.append(spec_of(e["leaf"]))
+            elif e.get("raw"):
+                seq_elems.append(P.cmd(e["raw"], ret=P.B("batch", cmds=[None] + [spec_of(x) for x in e["batch"]] + [None])))
             else:
                 seq_elems.append({"id": 0, "batch": [spec_of(x) for x in e["batch"]]})
         upd = {"u:1": {"cmd": {"id": 0, "seq": seq_elems, "cache": c.get("repeat", 1) > 1}}}
